@@ -836,7 +836,8 @@ class Pregex():
         pattern = self._concat_conditional_group()
         pre = pre._concat_conditional_group()
 
-        pattern = pattern + pre if on_right else pre + pattern
+        pattern = __class__.__join(pattern, pre) if on_right \
+            else __class__.__join(pre, pattern)
 
         return __class__(pattern, escape=False)
 
@@ -878,7 +879,8 @@ class Pregex():
             ``Pregex`` instance nor a string.
         '''
         pre = __class__._to_pregex(pre)._concat_conditional_group()
-        pattern = f"{pre}{self._concat_conditional_group()}{pre}"
+        pattern = __class__.__join(
+            __class__.__join(pre, self._concat_conditional_group()), pre)
         return __class__(pattern, escape=False)
         
 
@@ -1383,6 +1385,23 @@ class Pregex():
             source = self.__extract_text(source)
         return _re.finditer(self.__pattern, source, flags=self.__flags) \
             if self.__compiled is None else self.__compiled.finditer(source)
+
+
+    @staticmethod
+    def __join(left: str, right: str) -> str:
+        '''
+        Concatenates the two provided patterns. If ``left`` ends in a numeric \
+        backreference and ``right`` starts with a digit, then ``left`` is wrapped \
+        within a non-capturing group so that the digit is not read as part of \
+        the reference.
+
+        :param str left: The pattern on the left side of the concatenation.
+        :param str right: The pattern on the right side of the concatenation.
+        '''
+        if right[:1] in tuple("0123456789") and \
+            _re.search(r"(?<!\\)(?:\\\\)*\\\d+$", left) is not None:
+            left = f"(?:{left})"
+        return left + right
 
 
     @staticmethod
